@@ -483,9 +483,12 @@ fn harden_cases(thorough: bool) -> Vec<HCase> {
     }
     // ---------------- core-crate routing: calling forms of fit / fit_with, target layouts, helpers ----------------
     let flen = if thorough { 3 } else { 2 };
+    // third labelling: later batches lack a class the model already knows
+    let d3y: Vec<usize> = vec![0, 1, 2, 2, 1, 0, 0, 1];
     for (x, y, comps) in [
         (&d1x, &d1y, vec![vec![8usize], vec![3, 5], vec![1, 2, 5]]),
         (&d2x, &d2y, vec![vec![7usize], vec![2, 5], vec![1, 1, 5]]),
+        (&d1x, &d3y, vec![vec![4usize, 4], vec![3, 2, 3]]),
     ] {
         for comp in comps.iter().filter(|c| c.len() <= flen) {
             let (bx, by) = split(x, y, comp);
@@ -512,6 +515,28 @@ fn harden_cases(thorough: bool) -> Vec<HCase> {
                     queries: vec![],
                     forms: fa.clone(),
                 });
+            }
+        }
+    }
+    // ---------------- k-means: batch fit (several restarts) followed by mini-batch steps ----------------
+    {
+        let groups: [((f64, f64), usize); 5] = [((0.0, 0.0), 12), ((10.0, 1.0), 9), ((4.0, 9.0), 7), ((-8.0, 6.0), 5), ((-3.0, -9.0), 3)];
+        let mut data: Vec<Vec<f64>> = Vec::new();
+        for ((cx, cy), n) in groups.iter() {
+            for i in 0..*n {
+                data.push(vec![cx + en::jitter(i, 0) * 16.0 + 0.05 * i as f64, cy + en::jitter(i, 1) * 16.0 - 0.03 * i as f64]);
+            }
+        }
+        let mb1: Vec<Vec<f64>> = vec![vec![0.5, 0.4], vec![9.0, 2.0], vec![3.5, 8.0], vec![-7.0, 5.0], vec![-2.0, -8.0], vec![1.0, -1.0], vec![11.0, 0.0], vec![5.0, 10.0]];
+        let mb2: Vec<Vec<f64>> = vec![vec![-3.0, -8.5], vec![0.2, 0.1], vec![9.5, 1.5]];
+        let nseeds = if thorough { 40 } else { 16 };
+        for seed in 0..nseeds {
+            for n_runs in [1usize, 2, 5] {
+                for tail in [vec![mb1.clone()], vec![mb1.clone(), mb2.clone()], vec![mb2.clone(), mb1.clone()]] {
+                    let mut batches = vec![data.clone()];
+                    batches.extend(tail);
+                    out.push(HCase { sub: "km_fit".into(), float: "f64".into(), model: "L2".into(), batches, labels: vec![], rows: vec![], layouts: vec![], hyper: vec![3.0, n_runs as f64, seed as f64, 1e-4], init: vec![], queries: vec![], forms: vec![] });
+                }
             }
         }
     }
@@ -629,6 +654,7 @@ fn main() {
     ctx.assume("the initial z of FTRL is drawn by the subject from a generator supplied by the check that replays chosen dyadic values (rand 0.8 uniform f64 = (u64 >> 12) / 2^52); Ftrl::new is checked to produce exactly these values");
     ctx.assume("hardening families (harden.rs): each batch of a history is handed to fit_with in one of five memory layouts (standard, column-major owned, transposed view of a feature-major array, reversed-row view of a reversed copy, every-second-row view of a larger array with NaN filler rows), every assignment of layouts to the batches of histories of length <= 2 / 3 (<= 3 for naive Bayes); the model after every batch must equal the standard-layout replay within the tolerances above (counts exact), prediction inputs go through the same five layouts; replicated batches of 1025 (quick) / 1025 and 4097 (thorough) rows through the same reference oracles (1e-9 relative); f32 runs of naive Bayes, k-means and FTRL with f32 tolerances (statistics 1e-4 relative, centroids 1e-4, FTRL 1e-3 x operand magnitude, margins 1e-2) against the f64 reference evaluated on the f32-rounded inputs");
     ctx.assume("cross-crate routing: k-means runs with every linfa-nn metric (L2, L1, Linf, Lp(3)) on generic-position points with 1, 4, 5, 6, 7, 9 features at scales 1 and 0.125 (tolerance 0.5 x scale) in six layouts incl. a reversed FEATURE axis; own reduced distance / matrix distance per metric as before. Core crate: every batch of a naive-Bayes / FTRL history is handed over in one of seven calling forms (plain; reversed target view; every-second-element target view with poison fillers; strided (n,1) 2-d target column + into_single_target; encoded labels + map_targets; foreign-label rows + with_labels (CountedTargets); column-major owned dataset + unchecked params through the ParamGuard blanket impl), every assignment of forms to the batches; the model must equal the plain-form replay (same tolerances), single batches also through Fit::fit; predict is called in every form (&Array2, ArrayView2, owned Array2, &DatasetBase, owned DatasetBase (records returned unchanged), predict_inplace, one-row views, for k-means also one observation) and must agree bit for bit");
+    ctx.assume("k-means histories that START with a batch fit: five groups of 12/9/7/5/3 points, k = 3, Random init, n_runs in {1, 2, 5}, 16 / 40 seeds, default tolerance 1e-4, followed by 1-2 mini-batch steps: cluster_count after fit must equal the sizes of the clusters of the returned centroids (nearest returned centroid, rows within 1e-9 of equidistant make the case indeterminate) and every following fit_with step must be the running-mean recurrence from that state (1e-12, counts exact). An eighth fit_with calling form wraps the batch in CountedTargets whose cached label list names a class (already known to the model) that no record of the batch carries (counted, then one record relabelled in place through as_targets_mut)");
     ctx.assume("builder history: every order of the setters of KMeansParams (n_runs, tolerance, max_n_iterations, init_method; 24 orders) and FtrlParams (alpha, beta, l1_ratio, l2_ratio, rng; 120 orders), each also after decoy writes of other values, plus the alternative constructors and decoy-then-real writes of the single naive-Bayes setter, must give the same published getters and a bit-identical two-batch model history as the canonical order");
     ctx.assume("VERIF_SEED does not influence what is explored");
 
@@ -696,7 +722,7 @@ fn main() {
     // ---------------- hardening families: layouts, sizes, f32, builder history ----------------
     let hc = harden_cases(ctx.thorough());
     ctx.extra("harden_cases_enumerated", json!(hc.len()));
-    for (k, sub, fl) in [("harden_cases_nb_f64", "nb", "f64"), ("harden_cases_nb_f32", "nb", "f32"), ("harden_cases_kmeans_f64", "kmeans", "f64"), ("harden_cases_kmeans_f32", "kmeans", "f32"), ("harden_cases_ftrl_f64", "ftrl", "f64"), ("harden_cases_ftrl_f32", "ftrl", "f32"), ("harden_cases_builder", "builder", "f64"), ("harden_cases_core_nb_calling_forms", "core_nb", "f64"), ("harden_cases_core_ftrl_calling_forms", "core_ftrl", "f64")] {
+    for (k, sub, fl) in [("harden_cases_nb_f64", "nb", "f64"), ("harden_cases_nb_f32", "nb", "f32"), ("harden_cases_kmeans_f64", "kmeans", "f64"), ("harden_cases_kmeans_f32", "kmeans", "f32"), ("harden_cases_ftrl_f64", "ftrl", "f64"), ("harden_cases_ftrl_f32", "ftrl", "f32"), ("harden_cases_builder", "builder", "f64"), ("harden_cases_core_nb_calling_forms", "core_nb", "f64"), ("harden_cases_core_ftrl_calling_forms", "core_ftrl", "f64"), ("harden_cases_kmeans_fit_then_minibatch", "km_fit", "f64")] {
         ctx.extra(k, json!(hc.iter().filter(|c| c.sub == sub && c.float == fl).count()));
     }
     ctx.extra("harden_cases_with_a_non_standard_layout", json!(hc.iter().filter(|c| c.layouts.iter().any(|l| *l != 0)).count()));
